@@ -1252,6 +1252,46 @@ func genT2fixed(c *Ctx) {
 		c.Case(Verdict, "t2.dec", newT2env().args(code), true)
 		c.Case(Direct, "t2.spec", newT2env().args(code), true)
 	}
+	// endchar with 0 / 1 / 2 / 3 / 4 / 5 operands (4 = the seac-like "adx ady bchar achar endchar" WITHOUT a width), at the
+	// start of the charstring and after an operator that has already settled the width; default and nominal width are
+	// non-zero and differ, adx is non-zero, so an operand wrongly read as the width shows in the glyph
+	{
+		wenv := func() *t2env { e := newT2env(); e.dw = 300 * 65536; e.nw = 100 * 65536; return e }
+		type pre struct {
+			name string
+			code []byte
+		}
+		for _, pr := range []pre{
+			{"first operator", nil},
+			{"after hstem with width", cat(num(40), num(10), num(20), []byte{1})},
+			{"after hstem without width", cat(num(10), num(20), []byte{1})},
+			{"after rmoveto with width", cat(num(40), num(5), num(6), []byte{21})},
+			{"after hmoveto without width", cat(num(5), []byte{22})},
+			{"after hintmask with width", cat(num(40), num(10), num(20), []byte{19, 0x80})},
+		} {
+			for _, k := range []int{0, 1, 2, 3, 4, 5} {
+				operands := [][]byte{num(7), num(9), num(65), num(66)}
+				var body []byte
+				switch {
+				case k <= 4:
+					body = cat(operands[4-k:]...)
+					if k == 1 {
+						body = num(250)
+					}
+				default:
+					body = cat(num(250), num(7), num(9), num(65), num(66))
+				}
+				code := cat(pr.code, body, []byte{14})
+				c.Stat("t2.endchar-operands", fmt.Sprintf("%d operands, %s", k, pr.name))
+				c.Case(Verdict, "t2.dec", wenv().args(code), true)
+				// the specification accepts 0 or 4 operands, plus one width operand when the width is still open
+				legal := k == 0 || k == 4 || (pr.code == nil && (k == 1 || k == 5))
+				if legal {
+					c.Case(Direct, "t2.spec", wenv().args(code), true)
+				}
+			}
+		}
+	}
 	for name, code := range map[string][]byte{
 		"hintmask before any stem": {19, 0x80, 14},
 		"stem after hintmask":      cat(num(1), num(2), []byte{1, 19, 0x80}, num(3), num(4), []byte{1, 14}),
@@ -1906,7 +1946,11 @@ func t2glyphCases(c *Ctx, args string, kind string, nt bool) {
 		return
 	}
 	if encErr != nil {
-		c.Stat("t2enc.encode-error", encErr.Error())
+		// the encoder refuses a glyph of the domain: a case outcome, not a silent skip (the generator produces
+		// no glyph the model refuses: stem lists have even length)
+		c.Stat("t2enc.ENCODER-REFUSES", encErr.Error())
+		c.Case(Verdict, "t2.asm", args+" paths="+paths, nt)
+		c.Case(kind, "t2.rt", "code=0e "+args, nt)
 		return
 	}
 	c.Stat("t2enc.charstring-bytes", bucket(len(code)))
@@ -2294,8 +2338,18 @@ func t2targeted(c *Ctx) []string {
 			5*t2scale, 6*t2scale, 50*t2scale, 60*t2scale, kind, b))
 	}
 	// (d) header: width default / explicit x number of stem pairs x mask first / no mask
+	stemPairsList := [][2]int{}
 	for _, nh := range []int{0, 1, 23, 24, 25, 48} {
 		for _, nv := range []int{0, 1, 23, 24, 25, 48} {
+			stemPairsList = append(stemPairsList, [2]int{nh, nv})
+		}
+	}
+	// 48 / 49 / 50 / 52 / 72 / 95 / 96 / 97 stem hints (Type 2 allows 96; HStem/VStem hold two EDGES per stem)
+	stemPairsList = append(stemPairsList, [2]int{25, 24}, [2]int{26, 24}, [2]int{26, 26}, [2]int{36, 36}, [2]int{47, 48},
+		[2]int{96, 0}, [2]int{0, 96}, [2]int{97, 0}, [2]int{49, 0}, [2]int{0, 50})
+	for _, hv := range stemPairsList {
+		nh, nv := hv[0], hv[1]
+		{
 			for wd := 0; wd < 2; wd++ {
 				for mf := 0; mf < 2; mf++ {
 					if nh+nv == 0 && mf == 1 {
@@ -2773,6 +2827,9 @@ func genT2cff(c *Ctx) {
 // interpreter on every charstring: the widths it finds must be the glyphs' widths.
 //   widths=<16.16 units,…> file=<hex of the written CFF>
 
+// t2fontStems: number of horizontal / vertical stem hints given to every glyph with index >= 1 (field st=nh:nv)
+var t2fontStems [2]int
+
 func t2widthFont(widths []int64, nfd int, empty map[int]bool) *cff.Font {
 	font := &cff.Font{
 		FontInfo: &type1.FontInfo{
@@ -2791,6 +2848,14 @@ func t2widthFont(widths []int64, nfd int, empty map[int]bool) *cff.Font {
 			g.MoveTo(10, 10)
 			g.LineTo(110, 20)
 			g.LineTo(60, 120)
+		}
+		if i >= 1 {
+			for k := 0; k < t2fontStems[0]; k++ {
+				g.HStem = append(g.HStem, t2f(int(int64(10*k)*65536)), t2f(int(int64(10*k+4)*65536)))
+			}
+			for k := 0; k < t2fontStems[1]; k++ {
+				g.VStem = append(g.VStem, t2f(int(int64(10*k+1)*65536)), t2f(int(int64(10*k+6)*65536)))
+			}
 		}
 		font.Glyphs = append(font.Glyphs, g)
 	}
@@ -2837,7 +2902,13 @@ func init() {
 		if f["nfd"] != "" {
 			nfd = f.Int("nfd")
 		}
+		t2fontStems = [2]int{}
+		if st := f.List("st", ":"); len(st) == 2 {
+			fmt.Sscan(st[0], &t2fontStems[0])
+			fmt.Sscan(st[1], &t2fontStems[1])
+		}
 		data, err := t2writeWidthFont(ws, nfd, empty)
+		t2fontStems = [2]int{}
 		if err != nil {
 			return "writeerr:" + strings.ReplaceAll(err.Error(), " ", "_")
 		}
@@ -2879,6 +2950,30 @@ func genT2font(c *Ctx) {
 	}
 	emit := func(kind string, ws []int64) { emitX(kind, ws, 0, nil) }
 	u := func(v int) int64 { return int64(v) * 65536 }
+	// glyphs with many stem hints: Type 2 allows 96 stems (the encoder has no limit of its own)
+	for _, hv := range [][2]int{{1, 1}, {24, 24}, {25, 24}, {26, 24}, {26, 26}, {36, 36}, {48, 47}, {48, 48}, {96, 0}, {0, 96}, {49, 0}, {0, 50}, {97, 0}} {
+		for _, nfd := range []int{0, 2} {
+			stems, n := hv, nfd
+			c.Stat("t2font.stems", fmt.Sprint(stems[0]+stems[1]))
+			ws := []int64{u(600), u(600), u(600), u(450), u(725)}
+			parts := "39321600,39321600,39321600,29491200,47513600"
+			var data []byte
+			msg := guard(func() string {
+				t2fontStems = stems
+				defer func() { t2fontStems = [2]int{} }()
+				var err error
+				data, err = t2writeWidthFont(ws, n, map[int]bool{})
+				if err != nil {
+					return "writeerr"
+				}
+				return ""
+			})
+			if msg != "" {
+				c.Stat("t2font.WRITE-FAILED (stems)", fmt.Sprintf("h%dv%d", stems[0], stems[1]))
+			}
+			c.Case(Direct, "t2.fontw", fmt.Sprintf("widths=%s nfd=%d e= st=%d:%d file=%s", parts, n, stems[0], stems[1], hx(data)), true)
+		}
+	}
 	rep := func(w int64, n int) []int64 {
 		out := make([]int64, n)
 		for i := range out {
